@@ -11,9 +11,14 @@ import "sync"
 // harness runs the calls from several goroutines (go test -race in replay).
 
 // H_C07_noshared: the evaluation side (shares the templates of C06).
-func H_C07_noshared() {
-	k := vrtChoose("expr", len(c06Exprs))
-	expr := c06Exprs[k]
+func H_C07_noshared() { c07NoShared(c06Exprs) }
+
+// H_C07_generated: the generated function x argument templates of C06.
+func H_C07_generated() { c07NoShared(c06Gen()) }
+
+func c07NoShared(exprs []string) {
+	k := vrtChoose("expr", len(exprs))
+	expr := exprs[k]
 	vrtNote("template:" + expr)
 	doc := c06Doc()
 	snap := deepCopy(doc)
@@ -21,7 +26,7 @@ func H_C07_noshared() {
 	if cerr != nil {
 		return
 	}
-	un := c06Unordered(expr)
+	un := c06Unordered(expr) || len(exprs) > len(c06Exprs)
 	want, werr := e.Search(doc)
 	var wsnap any
 	if werr == nil {
